@@ -43,7 +43,13 @@ func (e *Engine) bufOf(v Value) *bufState {
 	if !ok || p.isNil() {
 		e.goPanic("nil *bytes.Buffer")
 	}
-	return p.cell.val.(OpaqueV).data.(*bufState)
+	if o, ok := p.cell.val.(OpaqueV); ok {
+		return o.data.(*bufState)
+	}
+	// the zero Buffer (new(bytes.Buffer), var b bytes.Buffer): an empty buffer ready to use
+	st := &bufState{b: BytesV{off: e.c64(0), n: e.c64(0), cap: e.c64(0)}}
+	p.cell.val = OpaqueV{kind: "bytes.Buffer", data: st}
+	return st
 }
 
 type asn1Sig struct {
@@ -74,6 +80,8 @@ func init() {
 		"encoding/asn1.Unmarshal", "encoding/asn1.Marshal",
 		"(github.com/fxamacker/cbor/v2.EncOptions).EncMode", "(github.com/fxamacker/cbor/v2.DecOptions).DecMode",
 		"bytes.NewBuffer", "(*bytes.Buffer).Bytes", "(*bytes.Buffer).Write", "(*bytes.Buffer).Len", "(*bytes.Buffer).WriteByte",
+		"(*bytes.Buffer).Reset", "(*bytes.Buffer).Grow",
+		"crypto/sha256.New", "crypto/sha512.New", "crypto/sha512.New384",
 		"(*github.com/fxamacker/cbor/v2.Encoder).Encode",
 	} {
 		stubNames[n] = true
@@ -747,6 +755,9 @@ func (e *Engine) callStub(name string, recv Value, args []Value) Value {
 			e.goPanic("crypto: requested hash function is unavailable")
 		}
 		return Iface{typ: e.fake("hash"), val: PtrV{cell: e.newCell(OpaqueV{kind: "hash", data: &hashState{h: h}}, "hash")}}
+	case "crypto/sha256.New", "crypto/sha512.New384", "crypto/sha512.New":
+		id := map[string]uint64{"crypto/sha256.New": 5, "crypto/sha512.New384": 6, "crypto/sha512.New": 7}[name]
+		return Iface{typ: e.fake("hash"), val: PtrV{cell: e.newCell(OpaqueV{kind: "hash", data: &hashState{h: e.c64(id)}}, "hash")}}
 	case "gosym.hash.Write":
 		hs := recv.(PtrV).cell.val.(OpaqueV).data.(*hashState)
 		b := args[0].(BytesV)
@@ -842,7 +853,18 @@ func (e *Engine) callStub(name string, recv Value, args []Value) Value {
 		return e.bytesFromRope(Rope{SegLit{[]byte{4}}, SegIntBE{pt.x, size}, SegIntBE{pt.y, size}})
 	// ---- sync.Pool: an object handed back is shared with every concurrent caller --------------------------------
 	case "(*sync.Pool).Get":
+		poolCell := args[0].(PtrV).cell
 		pool := e.load(args[0].(PtrV)).(*StructV)
+		// an object handed back earlier on this goroutine comes out again (what the runtime does without an
+		// intervening GC); the other possibility is a fresh one from New
+		if st := e.poolStore[poolCell]; len(st) > 0 && e.choose(2) == 0 {
+			v := st[len(st)-1]
+			e.poolStore[poolCell] = st[:len(st)-1]
+			if p, ok := v.val.(PtrV); ok {
+				delete(e.pooled, p.cell)
+			}
+			return v
+		}
 		var newFn Value
 		for _, f := range pool.fields {
 			if fv, ok := f.(*FuncV); ok && fv != nil {
@@ -852,8 +874,6 @@ func (e *Engine) callStub(name string, recv Value, args []Value) Value {
 		if newFn == nil {
 			return Iface{}
 		}
-		// a fresh object from New (an object recycled from another goroutine has arbitrary contents; its
-		// only observable difference, stale contents, is covered by C19-style checks)
 		return e.callFuncV(newFn.(*FuncV), nil)
 	case "(*sync.Pool).Put":
 		if ifc, ok := args[1].(Iface); ok {
@@ -863,6 +883,11 @@ func (e *Engine) callStub(name string, recv Value, args []Value) Value {
 				}
 				e.pooled[p.cell] = true
 			}
+			if e.poolStore == nil {
+				e.poolStore = map[*Cell][]Iface{}
+			}
+			pc := args[0].(PtrV).cell
+			e.poolStore[pc] = append(e.poolStore[pc], ifc)
 		}
 		return nil
 	case "bytes.TrimLeft":
@@ -1028,6 +1053,13 @@ func (e *Engine) callStub(name string, recv Value, args []Value) Value {
 		return PtrV{cell: e.newCell(OpaqueV{kind: "bytes.Buffer", data: &bufState{b: args[0].(BytesV)}}, "bytes.Buffer")}
 	case "(*bytes.Buffer).Bytes":
 		return e.bufOf(args[0]).b
+	case "(*bytes.Buffer).Reset":
+		st := e.bufOf(args[0])
+		st.b = BytesV{obj: st.b.obj, off: st.b.off, n: e.c64(0), cap: st.b.cap} // keeps the storage
+		return nil
+	case "(*bytes.Buffer).Grow":
+		e.bufOf(args[0])
+		return nil
 	case "(*bytes.Buffer).Len":
 		return e.bufOf(args[0]).b.n
 	case "(*bytes.Buffer).Write":
